@@ -118,6 +118,12 @@ def main():
         if broken:
             report["confirmed"] = False
     # run our checks against /repo with the patch applied
+    # the evidence files must describe runs on the unchanged tree: keep them aside while the patched tree is checked
+    saved_ev = {}
+    for c in checks:
+        ep = "/verif/evidence/%s.json" % c
+        if os.path.exists(ep):
+            saved_ev[ep] = open(ep).read()
     rc, o = sh(["git", "-C", "/repo", "apply", patch])
     try:
         for c in checks:
@@ -131,6 +137,9 @@ def main():
                     break
     finally:
         sh(["git", "-C", "/repo", "checkout", "--", "."])
+        for ep, txt in saved_ev.items():
+            with open(ep, "w") as f:
+                f.write(txt)
         rc, o = sh(["git", "-C", "/repo", "status", "--porcelain"])
         if o.strip():
             print("WARNING /repo not clean after revert:", o)
